@@ -243,6 +243,22 @@ Proof.
   apply in_map_iff. exists s. split; auto. apply filter_In. split; auto. rewrite E. reflexivity.
 Qed.
 
+(* ------------------------------------------------------------------ the default level *)
+Lemma observable_is_info_threshold : forall k, observable k = observable_at 20 k.
+Proof. intros k; destruct k as [l| | | |]; try reflexivity; destruct l; reflexivity. Qed.
+
+(* a threshold at or above INFO writes nothing that the model calls unobservable *)
+Lemma observable_at_mono : forall t k, (20 <= t)%Z -> observable_at t k = true -> observable k = true.
+Proof.
+  intros t k Ht H. rewrite observable_is_info_threshold.
+  destruct k as [l| | | |]; simpl in *; auto.
+  unfold written_at in *. apply Z.leb_le in H. apply Z.leb_le. lia.
+Qed.
+
+(* ... and a threshold below INFO does write debug records *)
+Lemma below_info_writes_debug : forall t, (t <= 10)%Z -> observable_at t (KLog LDebug) = true.
+Proof. intros t Ht. simpl. unfold written_at. apply Z.leb_le. simpl. lia. Qed.
+
 (* ------------------------------------------------------------------ demo table for the examples *)
 Definition demo_pk := ["KmipError"; "ItemNotFound"; "PermissionDenied"].
 Definition demo_sites : list site := [
